@@ -269,9 +269,14 @@ func (e *Exec) rangeFact(t *Term, ty types.Type) *Term {
 	return e.C.And(e.C.ILe(e.C.IntConst(lo), t), e.C.ILe(t, e.C.IntConst(hi)))
 }
 
-const maxLenBits = 48
+// Lengths of objects the verified code receives or obtains from abstracted calls are assumed to be at most 2^40 (one
+// TiB: no such object exists on the machines this library runs on); an allocation may ask for up to 2^48 elements
+// (the Go runtime's limit on linux/amd64). The gap lets sizes computed as small sums or multiples of input lengths
+// pass the allocation check, which a size derived from attacker-controlled *values* does not.
+const maxLenBits = 40
+const allocLimitBits = 48
 
-// lenFact: 0 <= l <= 2^48
+// lenFact: 0 <= l <= 2^maxLenBits
 func (e *Exec) lenFact(l *Term) *Term {
 	if e.IntMode {
 		if l.Op == "var" {
